@@ -20,17 +20,43 @@ from lerax.wrapper import TimeLimit
 from props.C19 import Rec
 
 
-def setups(thorough):
+def configs():
+    """algorithm class and the (tiny) constructor arguments of the harness"""
+    return {"PPO": (PPO, dict(num_envs=1, num_steps=2, num_batches=1, num_epochs=1)), "A2C": (A2C, dict(num_envs=1, num_steps=2)), "REINFORCE": (REINFORCE, dict(num_envs=1, num_steps=2)),
+            "DQN": (DQN, dict(buffer_size=4, learning_starts=1, num_envs=1, num_steps=1, batch_size=2, target_update_interval=3)),
+            "SAC": (SAC, dict(buffer_size=4, learning_starts=1, num_envs=1, num_steps=1, batch_size=2, q_width_size=2, q_depth=1))}
+
+
+def harness_env_policy(aname):
     envd = TimeLimit(UFEnv(Discrete(2)), 3)
     envb = TimeLimit(UFEnv(Box(-jnp.ones(1), jnp.ones(1))), 3)
     ac = dict(feature_size=2, feature_width=2, feature_depth=1, value_width=2, value_depth=1, action_width=2, action_depth=1)
-    S = {
-        "PPO": (PPO(num_envs=1, num_steps=2, num_batches=1, num_epochs=1), envd, lambda: MLPActorCriticPolicy(envd, key=jr.key(0), **ac)),
-        "A2C": (A2C(num_envs=1, num_steps=2), envd, lambda: MLPActorCriticPolicy(envd, key=jr.key(0), **ac)),
-        "REINFORCE": (REINFORCE(num_envs=1, num_steps=2), envd, lambda: MLPActorCriticPolicy(envd, key=jr.key(0), **ac)),
-        "DQN": (DQN(buffer_size=4, learning_starts=1, num_envs=1, num_steps=1, batch_size=2, target_update_interval=3), envd, lambda: MLPQPolicy(envd, width_size=2, depth=1, key=jr.key(0))),
-        "SAC": (SAC(buffer_size=4, learning_starts=1, num_envs=1, num_steps=1, batch_size=2, q_width_size=2, q_depth=1), envb, lambda: MLPSACPolicy(envb, feature_size=2, width_size=2, depth=1, key=jr.key(0))),
-    }
+    if aname.startswith("DQN"):
+        return envd, lambda: MLPQPolicy(envd, width_size=2, depth=1, key=jr.key(0))
+    if aname.startswith("SAC"):
+        return envb, lambda: MLPSACPolicy(envb, feature_size=2, width_size=2, depth=1, key=jr.key(0))
+    return envd, lambda: MLPActorCriticPolicy(envd, key=jr.key(0), **ac)
+
+
+def float_hyperparameters(cls):
+    """constructor arguments with a float default: (name, default, perturbed value)"""
+    import inspect
+    out = []
+    for n, p_ in inspect.signature(cls.__init__).parameters.items():
+        d = p_.default
+        if isinstance(d, float) and not isinstance(d, bool):
+            out.append((n, d, d * 0.5 if d != 0 else 0.25))
+    return out
+
+
+def setups(thorough):
+    S = {}
+    for aname, (cls, kw) in configs().items():
+        env_, mk = harness_env_policy(aname)
+        S[aname] = (cls(**kw), env_, mk)
+    envd, mkd = harness_env_policy("PPO")
+    envb, mkb = harness_env_policy("SAC")
+    ac = dict(feature_size=2, feature_width=2, feature_depth=1, value_width=2, value_depth=1, action_width=2, action_depth=1)
     if thorough:
         S["PPO(E=2)"] = (PPO(num_envs=2, num_steps=2, num_batches=2, num_epochs=2), envd, lambda: MLPActorCriticPolicy(envd, key=jr.key(0), **ac))
         S["SAC(E=2)"] = (SAC(buffer_size=4, learning_starts=1, num_envs=2, num_steps=1, batch_size=2, q_width_size=2, q_depth=1), envb, lambda: MLPSACPolicy(envb, feature_size=2, width_size=2, depth=1, key=jr.key(0)))
@@ -301,6 +327,31 @@ def check_cross_process(ck, names):
                 f"sha256 of the traced iteration() program and constants under PYTHONHASHSEED=1: {digests[0][aname][:16]}…, under PYTHONHASHSEED=2: {str(digests[1].get(aname))[:16]}…")
 
 
+def check_construction_order(ck, names):
+    """'a function of (environment, initial policy, hyper-parameters, key)': an algorithm object's training program depends on ITS OWN constructor arguments only,
+    not on which other algorithm objects the process built before.  Two fresh interpreter processes build, per algorithm, the default configuration and one
+    variant per float hyper-parameter (value halved) -- one process in that order, the other in the reverse order -- and digest the traced iteration() program
+    and constants of every object: the digests must agree object by object (hidden caches / registries keyed on part of the configuration make them differ)."""
+    import json
+    import os
+    import subprocess
+    import sys
+    res = []
+    for order in ("forward", "reverse"):
+        p = subprocess.run([sys.executable, "-W", "ignore", "-m", "props.c11_worker", "--construction-order", order] + list(names), capture_output=True, text=True, cwd=core.ROOT, timeout=1500,
+                           env=dict(os.environ))
+        line = [l for l in p.stdout.splitlines() if l.startswith("C11ORDER ")]
+        if not line:
+            raise RuntimeError("c11_worker --construction-order failed: " + (p.stderr or p.stdout)[-600:])
+        res.append(json.loads(line[0][len("C11ORDER "):]))
+    for aname in res[0]:
+        a, b = res[0][aname], res[1].get(aname, {})
+        diff = sorted(k for k in a if a[k] != b.get(k))
+        distinct = len(set(a.values()))
+        ck.fact(f"purity.construction_order_independent.{aname}", not diff and set(a) == set(b),
+                f"{len(a)} configurations (default + one per float hyper-parameter), {distinct} distinct programs; configurations whose program differs between the two construction orders: {diff}")
+
+
 def main():
     ck = Check("C11", "reproducible, pure, unaffected by observers")
     ck.mode = "REAL"
@@ -321,6 +372,8 @@ def main():
         if aname in ("PPO", "DQN") or ck.thorough:
             with ck.section(f"learn.{aname}"):
                 check_learn_observer(ck, aname, algo, env, mkpol)
+    with ck.section("construction_order"):
+        check_construction_order(ck, [n for n in configs() if not only or n == only])
     with ck.section("cross_process"):
         check_cross_process(ck, [n for n in setups(ck.thorough) if not only or n == only])
     ck.finish("For each algorithm the real reset() and iteration() are traced once per callback set over an uninterpreted environment and the real (tiny) MLP "
